@@ -14,6 +14,10 @@ import (
 // progress and completeness (see DESIGN.md, C05).
 func RunTail(w *World, adv *Adversary, p *Profile, res *Result) {
 	m := w.Mon
+	prop := "C05"
+	if p.TailProp != "" {
+		prop = p.TailProp
+	}
 	_, hi := w.Heights()
 	if hi > w.Cfg.MaxH || hi == 0 {
 		m.Stats["C05 not judged: every explored height already decided"]++
@@ -53,6 +57,17 @@ func RunTail(w *World, adv *Adversary, p *Profile, res *Result) {
 		m.Stats["C05 not judged: views beyond the range of the virtual timers"]++
 		return
 	}
+	// recorded known finding (C05): a correct leader never counts its own proposal towards "prepared", so a member
+	// whose own weight reaches the quorum cannot make progress alone when everybody else is silent
+	for _, n := range deciding {
+		if c.IsQuorum([]string{n.Id}) {
+			if prop != "C05" {
+				m.Stats["tail not judged: a member's own weight reaches the quorum (recorded C05 finding)"]++
+				return
+			}
+			m.taint["member-weight-reaches-quorum"] = true
+		}
+	}
 	m.Stats["C05 tails judged"]++
 	w.GST = true
 	w.Clock = 1 << 60
@@ -73,7 +88,7 @@ func RunTail(w *World, adv *Adversary, p *Profile, res *Result) {
 	stabEmit := w.emit
 	committed := func(n *Node) bool { _, ok := n.Commits[H]; return ok || uint64(n.St.Height()) > H }
 	advPct := 0
-	if adv.Active() {
+	if adv.Active() && !p.TailQuiet {
 		advPct = 5 + w.Rng.Intn(20)
 	}
 	completenessDone := false
@@ -99,7 +114,7 @@ func RunTail(w *World, adv *Adversary, p *Profile, res *Result) {
 		}
 		if nCommitted > 0 && !completenessDone {
 			completenessDone = true
-			m.judgeCompleteness(H, deciding, stabEmit)
+			m.judgeCompleteness(prop, H, deciding, stabEmit)
 		}
 		if nCommitted > 0 {
 			m.Stats["C05 tails with commit"]++
@@ -114,7 +129,7 @@ func RunTail(w *World, adv *Adversary, p *Profile, res *Result) {
 			}
 		}
 		if next == nil {
-			m.violate("C05", "no-armed-timer-and-no-commit", "height %d: after stabilisation no deciding correct node has an armed election timer and none committed", H)
+			m.violate(prop, "no-armed-timer-and-no-commit", "height %d: after stabilisation no deciding correct node has an armed election timer and none committed", H)
 			return
 		}
 		if e := next.ES.Expiry(); e > w.Clock {
@@ -124,7 +139,7 @@ func RunTail(w *World, adv *Adversary, p *Profile, res *Result) {
 		m.Stats["timeouts"]++
 		if mv := maxView(deciding); mv > bound {
 			lead := c.Leader(mv)
-			m.violate("C05", "no-commit-within-view-bound", "height %d: stabilised at max view %d, reached view %d (bound %d = vmax + 2n + 2) with no commit at any correct node (leader of that view: %s, correct=%v)", H, vmax, mv, bound, lead, w.IsCorrect(lead))
+			m.violate(prop, "no-commit-within-view-bound", "height %d: stabilised at max view %d, reached view %d (bound %d = vmax + 2n + 2) with no commit at any correct node (leader of that view: %s, correct=%v)", H, vmax, mv, bound, lead, w.IsCorrect(lead))
 			return
 		}
 	}
@@ -143,7 +158,7 @@ func maxView(nodes []*Node) uint64 {
 
 // judgeCompleteness: every correct node that stored the committing view's proposal commits it,
 // provided that proposal was emitted after stabilisation.
-func (m *Monitors) judgeCompleteness(H uint64, deciding []*Node, stabEmit uint64) {
+func (m *Monitors) judgeCompleteness(prop string, H uint64, deciding []*Node, stabEmit uint64) {
 	w := m.w
 	var rec *CommitRec
 	for _, n := range deciding {
@@ -192,7 +207,7 @@ func (m *Monitors) judgeCompleteness(H uint64, deciding []*Node, stabEmit uint64
 	for _, n := range deciding {
 		if pp, ok := n.Store.GetPreprepareMessage(primitivesH(H), primitivesV(view)); ok && pp != nil && string(pp.Content().SignedHeader().BlockHash()) == hash && pp.Block() != nil {
 			if _, done := n.Commits[H]; !done && uint64(n.St.Height()) == H {
-				m.violate("C05", "acceptor-of-committing-view-left-behind", "height %d view %d: node %s accepted the proposal that was committed (emitted after stabilisation) but has not committed it once the network is quiescent", H, view, n.Id)
+				m.violate(prop, "acceptor-of-committing-view-left-behind", "height %d view %d: node %s accepted the proposal that was committed (emitted after stabilisation) but has not committed it once the network is quiescent", H, view, n.Id)
 			}
 		}
 	}
